@@ -639,12 +639,12 @@ Ready(s) ==
   LET s0 == Notify(s)
       hasSnap == s0.snap # NoSnap
       lo == Max2(s0.proc + 1, s0.sidx + 1)
-      handed == IF hasSnap THEN <<>> ELSE Slice(s0, lo, s0.com)
+      handed == Slice(s0, lo, s0.com)
   IN [s0 EXCEPT !.dterm = s0.term, !.dvote = s0.vote, !.dcom = s0.com,
                 !.dlog = s0.log, !.dsidx = s0.sidx, !.dsterm = s0.sterm,
                 !.dsnap = IF hasSnap THEN s0.snap ELSE @,
                 !.aq = IF hasSnap THEN s0.snap ELSE @,
-                !.alist = IF hasSnap THEN <<>> ELSE @ \o handed,
+                !.alist = IF hasSnap THEN handed ELSE @ \o handed,
                 !.snap = NoSnap, !.msgs = {}, !.rtr = <<>>, !.dropE = {}, !.dropR = {},
                 !.proc = Max2(s0.proc, s0.com)]
 
